@@ -86,7 +86,8 @@ WasShaky(q, h) == Shaky(h, q.sess) \/ h \in q.shaky \/ h \notin HostsOf(q.sess)
 NewReq(c, s, idem, op, cached, tok, ss) ==
     [c |-> c, s |-> s, idem |-> idem, op |-> op, cached |-> cached, tok |-> tok, sess |-> ss,
      ph |-> "exec",            \* exec: the proxy owes a move; wait: an attempt is outstanding; done
-     must |-> {"next"},        \* allowed moves: next, same, prep, reply_<kind>
+     must |-> IF op = "LOCAL" THEN {"reply_ok"} ELSE {"next"},   \* allowed moves: next, same, prep, reply_<kind>
+                               \* (op LOCAL: a request the proxy answers itself - its only move is the answer)
      retry |-> 0,
      rlo |-> 0,                \* lower bound of the retry count: below `retry` only when a counted answer may have
      prlo |-> 0,               \* been lost with its connection before the proxy read it (maylost; prlo is the lower
@@ -154,7 +155,7 @@ DoTake(r, h, b, bs, op) ==
         c04ok == ~(reexec /\ ~q.idem /\ q.unsafe)
         \* C08: after a successful re-prepare the request is re-executed on that host
         afterPrep == q.mode = "prep" /\ "same" \in q.must /\ q.ph = "exec"
-        why == IF ~c04ok THEN "C04" ELSE IF afterPrep THEN "C08" ELSE "C05"
+        why == IF q.op = "LOCAL" THEN "C09" ELSE IF ~c04ok THEN "C04" ELSE IF afterPrep THEN "C08" ELSE "C05"
         \* C02: the stream id that reaches the backend must not be one that is still in use on that connection
         streamFree == ~(\E x \in out : x.b = b /\ x.bs = bs)
     IN
@@ -181,6 +182,7 @@ DoTake(r, h, b, bs, op) ==
                    ELSE IF ~streamFree THEN "C02" ELSE why,
                    IF conn[b].sess # q.sess THEN "request forwarded on a connection of another session (version/compression/keyspace)"
                    ELSE IF ~streamFree THEN "request written to the backend under a stream id that is still in use on that connection"
+                   ELSE IF q.op = "LOCAL" THEN "a read of the virtual system tables was sent to a backend"
                    ELSE IF ~c04ok THEN "non-idempotent request re-sent after an outcome that may have applied it"
                    ELSE IF q.nrep > 0 THEN "request sent to a backend after the client was answered (not prescribed by the retry policy)"
                    ELSE IF isprep THEN "unexpected re-prepare"
@@ -318,9 +320,11 @@ DoReply(r, c, s, kind, tok, node) ==
                    \/ (kind = "nohosts" /\ "next" \in q.must /\ Len(q.tried) >= Len(HostOrder))
                    \/ (kind = "connclosed" /\ q.stale > 0 /\ ~q.idem)
                    \/ (q.fork /\ kind = "nohosts")
-        content == kind # "ok" \/ q.op = "PREPARE" \/ (tok = q.tok /\ (node = q.cur \/ node \in Range(q.tried)))
+        content == IF q.op = "LOCAL" THEN kind # "ok" \/ (tok = q.tok /\ node = "")   \* the proxy's own rows name no node
+                   ELSE kind # "ok" \/ q.op = "PREPARE" \/ (tok = q.tok /\ (node = q.cur \/ node \in Range(q.tried)))
         \* the frame is either the proxy's own error or the answer some backend gave to an attempt of this request
         known == \/ kind \in {"nohosts", "connclosed"}
+                 \/ (q.op = "LOCAL" /\ kind = "ok")
                  \/ \E i \in DOMAIN q.attlog : ReplyKind(q.attlog[i][2]) = kind
                  \/ (q.ans # NONE /\ ReplyKind(q.ans) = kind)
     IN
@@ -329,13 +333,14 @@ DoReply(r, c, s, kind, tok, node) ==
     /\ bad' = Flag(own /\ first /\ allowed /\ content,
                    IF ~own THEN "C02" ELSE IF ~first THEN "C01" ELSE IF ~content THEN "C02"
                    ELSE IF kind = "unprepared" /\ q.cached THEN "C08" ELSE IF ~known THEN "C02"
-                   ELSE IF q.mode = "prep" /\ "same" \in q.must THEN "C08" ELSE "C05",
+                   ELSE IF q.mode = "prep" /\ "same" \in q.must THEN "C08" ELSE IF q.op = "LOCAL" THEN "C02" ELSE "C05",
                    IF ~own THEN "response delivered on a stream/client that did not send the request"
                    ELSE IF ~first THEN "second response for one request"
                    ELSE IF ~content THEN "response carries another request's answer"
                    ELSE IF kind = "unprepared" /\ q.cached THEN "UNPREPARED returned although the statement is cached"
                    ELSE IF ~known THEN "response is not the answer to any attempt of this request"
                    ELSE IF q.mode = "prep" /\ "same" \in q.must THEN "request answered without being re-executed after its statement was re-prepared"
+                   ELSE IF q.op = "LOCAL" THEN "a read of the virtual system tables was answered with something else than its rows"
                    ELSE "reply not prescribed by the retry policy", r)
     /\ UNCHANGED <<conn, out>>
 
